@@ -21,9 +21,131 @@ BOUNDS = {
 REACH = {'skel': ['pipeline']}
 
 
+def _lemma_harness(e):
+  """Lemma T: for every OpQuantizationConfig shape the real
+  get_tensor_transformations returns the list the mode table of the property
+  demands, or raises ValueError; and bit width -> tensor dtype for ALL ints."""
+  import z3
+  from symx.core import SymBool, SymInt, SymTok
+  from ai_edge_quantizer import qtyping
+  from ai_edge_quantizer.algorithms.utils import min_max_quantize_utils as mmu
+  from ai_edge_quantizer.transformations import quantize_tensor as qt
+  from ai_edge_litert import schema_py_generated as S
+  QT = qtyping.QuantTransformation
+  T = qtyping.TensorQuantizationConfig
+  has_act = SymTok.fresh('has_activation', [False, True]).concrete()
+  gran = SymTok.fresh('granularity', list(qtyping.QuantGranularity)).concrete()
+  cp = SymTok.fresh('precision', list(qtyping.ComputePrecision)).concrete()
+  wdt = SymTok.fresh('wdtype', list(qtyping.TensorDataType)).concrete()
+  xd = SymBool(z3.Bool('explicit_dequantize'))
+  inb = SymBool(z3.Bool('is_inbounding'))
+  const = SymBool(z3.Bool('is_constant'))
+  for n_, v in (('explicit_dequantize', xd), ('is_inbounding', inb),
+                ('is_constant', const)):
+    e.register_input(n_, v.z)
+  try:
+    cfg = qtyping.OpQuantizationConfig(
+        activation_tensor_config=T(num_bits=8) if has_act else None,
+        weight_tensor_config=T(num_bits=8, granularity=gran, dtype=wdt,
+                               block_size=32),
+        compute_precision=cp, explicit_dequantize=xd)
+  except ValueError:
+    return
+  raised = False
+  try:
+    got = mmu.get_tensor_transformations(cfg, inb, const)
+  except ValueError:
+    raised, got = True, None
+  e.reach('lemma')
+  integer = cp == qtyping.ComputePrecision.INTEGER
+  blockwise = gran == qtyping.QuantGranularity.BLOCKWISE
+  i, c, x = inb.z, const.z, xd.z
+  # expected list as a function of the (now decided) flags
+  def expect():
+    if integer and has_act:
+      return z3.If(i, z3.If(c, 3, 1), 2)       # QUANTIZE_TENSOR/ADD_Q/ADD_DQ
+    if integer:
+      return z3.If(z3.And(i, c), 3, 0)
+    if blockwise:
+      return z3.If(c, 4, z3.If(x, 0, -1))      # emulated subchannel / WO / raise
+    return z3.If(x, z3.If(z3.And(i, c), 2, 0), -1)
+  code = z3.IntVal(-1) if raised else z3.IntVal(got[0].value)
+  e.check('C03.lemmaT.transformations_follow_the_mode_table',
+          z3.And(code == expect(),
+                 z3.BoolVal(raised or len(got) == 1)))
+  # bit width -> tensor dtype, every integer
+  bw = SymInt.fresh('bitwidth')
+  try:
+    t = qt.quant_params_to_tflite_type(bw)
+    tcode = z3.IntVal(int(t))
+  except ValueError:
+    tcode = z3.IntVal(-1)
+  TT = S.TensorType
+  want = z3.If(bw.z <= 4, int(TT.INT4), z3.If(bw.z <= 8, int(TT.INT8), z3.If(
+      bw.z <= 16, int(TT.INT16), z3.If(bw.z <= 32, int(TT.INT32), z3.If(
+          bw.z <= 64, int(TT.INT64), -1)))))
+  e.check('C03.lemmaT.bit_width_to_tensor_dtype', tcode == want)
+  try:
+    t = qt.nonlinear_quant_params_to_tflite_type(bw)
+    tcode = z3.IntVal(int(t))
+  except ValueError:
+    tcode = z3.IntVal(-1)
+  want = z3.If(bw.z == 16, int(TT.FLOAT16), z3.If(bw.z == 32, int(TT.FLOAT32),
+                                                 -1))
+  e.check('C03.lemmaT.float_bit_width_to_tensor_dtype', tcode == want)
+
+
+def job_lemma(job):
+  from symx.core import Engine, z3val_to_py
+  from props.common import result_from_engines, Candidate
+  en = Engine(solver_timeout_ms=20000, max_paths=20000)
+  en.explore(_lemma_harness)
+
+  def tc(tag, v):
+    d = {k: z3val_to_py(x) for k, x in v.model_values.items()}
+    d['lemma'] = True
+    return Candidate(v.name, d)
+  r = result_from_engines(job.name, [('lemmaT', en)], tc)
+  r.samples = [f'Lemma T: {en.stats.paths} paths over config shapes x flags x '
+               'all integer bit widths']
+  return r
+
+
+REACH['lemma'] = ['lemma']
+
+
 def jobs(tier, seed):
-  return PP.make_jobs(PROP, tier)
+  from props.common import Job
+  return PP.make_jobs(PROP, tier) + [Job('lemma:T', job_lemma, {})]
 
 
 def replay(c):
+  if c['data'].get('lemma'):
+    # the witness is a concrete flag / bit-width assignment: re-evaluate
+    from ai_edge_quantizer import qtyping
+    from ai_edge_quantizer.algorithms.utils import min_max_quantize_utils as mmu
+    from ai_edge_quantizer.transformations import quantize_tensor as qt
+    d = c['data']
+    if c['obligation'].endswith('tensor_dtype'):
+      bw = int(d.get('bitwidth', 0))
+      try:
+        got = int(qt.quant_params_to_tflite_type(bw))
+      except ValueError:
+        got = -1
+      return True, 'lemmaT', f'bit width {bw} -> tensor type {got}'
+    T = qtyping.TensorQuantizationConfig
+    cfg = qtyping.OpQuantizationConfig(
+        activation_tensor_config=T(num_bits=8) if d.get('has_activation')
+        else None,
+        weight_tensor_config=T(num_bits=8, granularity=list(
+            qtyping.QuantGranularity)[d.get('granularity', 0)], block_size=32),
+        compute_precision=list(qtyping.ComputePrecision)[d.get('precision', 0)],
+        explicit_dequantize=bool(d.get('explicit_dequantize')))
+    try:
+      got = mmu.get_tensor_transformations(cfg, bool(d.get('is_inbounding')),
+                                           bool(d.get('is_constant')))
+    except ValueError as ex:
+      got = f'ValueError: {ex}'
+    return True, 'lemmaT', f'{cfg} inbound={d.get("is_inbounding")} ' \
+                           f'const={d.get("is_constant")}: {got}'
   return PP.replay(PROP, c)
